@@ -47,6 +47,9 @@ func (r *run) sliceBound() int64 {
 type run struct {
 	E        *Engine
 	lenBoundLog2 int
+	appendFacts  bool
+	preNode      *node // state at entry of the function under verification
+	allocAdvances map[*smt.Term]bool // allocation counters introduced after calls (each not below its predecessor)
 	mode     string
 	facts    []*smt.Term
 	obls     []*Obligation
@@ -627,6 +630,21 @@ type cellWrite struct {
 	leaf *smt.Sort
 }
 
+// allocBoundFor: the allocation counter below which a reference read from heap cell family `heap` at node n
+// must lie: the counter at function entry when that heap has not been written since entry (the reference
+// was there before the function allocated anything), else the current counter.
+func (r *run) allocBoundFor(n *node, heap string, nidx int, cell *smt.Sort) *smt.Term {
+	cur := n.getPV("$alloc", smt.Int)
+	if r.preNode == nil || nidx < 1 {
+		return cur
+	}
+	hs := r.heapSort(nidx, cell)
+	if n.getPV(heap, hs) == r.preNode.getPV(heap, hs) {
+		return r.preNode.getPV("$alloc", smt.Int)
+	}
+	return cur
+}
+
 // load reads a value of type loc.T from loc.
 func (r *run) load(n *node, loc Loc) Value {
 	c := r.C()
@@ -643,7 +661,7 @@ func (r *run) load(n *node, loc Loc) Value {
 	case *types.Pointer:
 		ref := r.readCell(n, loc.Heap, loc.Idxs, smt.Int)
 		if !ref.HasBound && n != nil && !strings.HasPrefix(loc.Heap, "G$") {
-			r.assume(c.True(), c.Op("<", nil, ref, n.getPV("$alloc", smt.Int)))
+			r.assume(c.True(), c.Op("<", nil, ref, r.allocBoundFor(n, loc.Heap, len(loc.Idxs), smt.Int)))
 			r.assume(c.True(), c.Op(">=", nil, ref, c.IntC(0)))
 		}
 		return PtrV{r.rootLoc(u.Elem(), ref)}
@@ -670,7 +688,7 @@ func (r *run) load(n *node, loc Loc) Value {
 			}
 			// a reference found in memory was allocated earlier (it is below the allocation counter)
 			if n != nil {
-				r.assume(c.True(), c.Op("<", nil, ref, n.getPV("$alloc", smt.Int)))
+				r.assume(c.True(), c.Op("<", nil, ref, r.allocBoundFor(n, loc.Heap+".ref", len(loc.Idxs), smt.Int)))
 			}
 		}
 		return sv
@@ -903,8 +921,18 @@ func (r *run) ite(cond *smt.Term, a, b Value) Value {
 		switch y := b.(type) {
 		case PtrV:
 			if x.L.Heap != y.L.Heap || len(x.L.Idxs) != len(y.L.Idxs) {
-				// nil pointers adapt
-				r.unsupported("merging pointers into different heaps (%s / %s)", x.L.Heap, y.L.Heap)
+				// a nil pointer adapts to the heap family of the other side (reference 0 in every family)
+				isNil := func(p PtrV) bool {
+					return len(p.L.Idxs) == 1 && p.L.Idxs[0].IsConst() && p.L.Idxs[0].Val.Sign() == 0
+				}
+				switch {
+				case isNil(x) && len(y.L.Idxs) == 1:
+					x = PtrV{Loc{Heap: y.L.Heap, Idxs: []*smt.Term{c.IntC(0)}, T: y.L.T}}
+				case isNil(y) && len(x.L.Idxs) == 1:
+					y = PtrV{Loc{Heap: x.L.Heap, Idxs: []*smt.Term{c.IntC(0)}, T: x.L.T}}
+				default:
+					r.unsupported("merging pointers into different heaps (%s / %s)", x.L.Heap, y.L.Heap)
+				}
 			}
 			idx := make([]*smt.Term, len(x.L.Idxs))
 			for i := range idx {
